@@ -12,7 +12,7 @@ partial def typeToJson : TypeRef → Json
     | j => j.setObjVal! "nonNull" true
 
 partial def valueToJson : Value → Json
-  | .var n => obj [("k", "var"), ("v", n)]
+  | .var n et => obj [("k", "var"), ("v", n), ("et", et)]
   | .int s => obj [("k", "int"), ("v", s)]
   | .float s => obj [("k", "float"), ("v", s)]
   | .str s => obj [("k", "str"), ("v", s)]
